@@ -14,32 +14,41 @@ import (
 	"github.com/named-data/ndnd/std/utils/priority_queue"
 )
 
+// deadNonceKey identifies an entry of the Dead Nonce List: the name (by its hash) and the
+// nonce, side by side. Their sum is not an identity: names whose hashes differ by less than
+// 2^32 would share entries, and an Interest would be dropped as dead because an Interest
+// with another name and another nonce is.
+type deadNonceKey struct {
+	nameHash uint64
+	nonce    uint32
+}
+
 // DeadNonceList represents the Dead Nonce List for a forwarding thread.
 type DeadNonceList struct {
-	list            map[uint64]bool
-	expirationQueue priority_queue.Queue[uint64, int64]
+	list            map[deadNonceKey]bool
+	expirationQueue priority_queue.Queue[deadNonceKey, int64]
 	Ticker          *time.Ticker
 }
 
 // NewDeadNonceList creates a new Dead Nonce List for a forwarding thread.
 func NewDeadNonceList() *DeadNonceList {
 	d := new(DeadNonceList)
-	d.list = make(map[uint64]bool)
+	d.list = make(map[deadNonceKey]bool)
 	d.Ticker = time.NewTicker(100 * time.Millisecond)
-	d.expirationQueue = priority_queue.New[uint64, int64]()
+	d.expirationQueue = priority_queue.New[deadNonceKey, int64]()
 	return d
 }
 
 // Find returns whether the specified name and nonce combination are present in the Dead Nonce List.
 func (d *DeadNonceList) Find(name enc.Name, nonce uint32) bool {
-	_, ok := d.list[name.Hash()+uint64(nonce)]
+	_, ok := d.list[deadNonceKey{name.Hash(), nonce}]
 	return ok
 }
 
 // Insert inserts an entry in the Dead Nonce List with the specified name and nonce.
 // Returns whether nonce already present.
 func (d *DeadNonceList) Insert(name enc.Name, nonce uint32) bool {
-	hash := name.Hash() + uint64(nonce)
+	hash := deadNonceKey{name.Hash(), nonce}
 	_, exists := d.list[hash]
 
 	if !exists {
